@@ -4,7 +4,7 @@ the named rule to fire.   usage: selftest.py <Cnn|all> [name-substring]   (or fr
 
 Variants are edit scripts (file, old, new) in /verif/engine/variants/Cnn.py, and unified diffs kept under
 /verif/seeded/<id>/ (independent changes written by sub-agents)."""
-import sys, os, json, shutil, subprocess, tempfile, importlib.util, time, glob
+import sys, os, json, shutil, subprocess, tempfile, importlib.util, time, glob, hashlib
 
 HERE = os.path.dirname(os.path.abspath(__file__))
 sys.path.insert(0, HERE)
@@ -67,7 +67,24 @@ def restore(repo, files):
         shutil.copy2(os.path.join(extract.REPO, f), os.path.join(repo, f))
 
 
-def run_variants(prop, variants, verbose=True):
+def _repo_state():
+    h = subprocess.run(['git', '-C', extract.REPO, 'rev-parse', 'HEAD'], stdout=subprocess.PIPE, text=True).stdout.strip()
+    d = subprocess.run(['git', '-C', extract.REPO, 'diff', 'HEAD'], stdout=subprocess.PIPE, text=True).stdout
+    return h + hashlib.sha1(d.encode()).hexdigest()[:8]
+
+
+def _variant_key(v, state):
+    if v['kind'] == 'edit':
+        body = json.dumps(v['edits'])
+    else:
+        body = open(v['patch']).read()
+    return hashlib.sha1((state + body).encode()).hexdigest()[:16]
+
+
+VCACHE = os.path.join(extract.CACHE, 'variant-facts')
+
+
+def run_variants(prop, variants, verbose=True, use_cache=True):
     import main as M
     M.load_rules()
     results = []
@@ -80,23 +97,32 @@ def run_variants(prop, variants, verbose=True):
     if not os.path.isdir(starget) and os.path.isdir(mtarget):
         subprocess.call(['cp', '-a', mtarget, starget])
     FX = facts.load([extract.extract_fixture()])
+    state = _repo_state()
     try:
         for v in variants:
             t0 = time.time()
-            subprocess.check_call(['rsync', '-a', '--delete', '--exclude', '/target', '--exclude', '/.git', extract.REPO + '/', repo + '/'])
-            ok, msg = apply_variant(repo, v)
-            if not ok:
+            vk = os.path.join(VCACHE, _variant_key(v, state))
+            cached = sorted(glob.glob(os.path.join(vk, '*.jsonl'))) if use_cache else []
+            if cached:
+                files = cached
+            else:
+              subprocess.check_call(['rsync', '-a', '--delete', '--exclude', '/target', '--exclude', '/.git', extract.REPO + '/', repo + '/'])
+              ok, msg = apply_variant(repo, v)
+              if not ok:
                 results.append({'variant': v['name'], 'status': 'skipped', 'why': 'does not apply: ' + msg})
                 if verbose:
                     print("  SKIP %-40s %s" % (v['name'], msg))
                 continue
-            try:
+              try:
                 files, _ = extract.extract('default', repo=repo)
-            except NoVerdict as e:
+              except NoVerdict as e:
                 results.append({'variant': v['name'], 'status': 'no-compile', 'why': str(e)[-600:]})
                 if verbose:
                     print("  NOCOMPILE %-36s %s" % (v['name'], str(e)[-300:]))
                 continue
+              if use_cache:
+                os.makedirs(vk, exist_ok=True)
+                files = [shutil.copy2(f, vk) for f in files]
             P = facts.load(files)
             c = core.Ctx(prop, P, 'quick', 'default', FX)
             c.run()
